@@ -29,6 +29,8 @@ type recApp struct {
 	height  int64
 	hash    []byte
 	hashLog [][]byte // own hash after each commit (what an older snapshot would hold)
+	hgtLog  []int64  // height reported after each commit
+	ih      int64    // InitialHeight (the first block's height); 0/1 = 1
 	pend    *pendExec
 	journal []string
 	file    *os.File // child mode: journal file
@@ -90,13 +92,16 @@ func (a *recApp) applyToken(tok string) {
 			a.pend.ended = true
 		}
 	case tok == "C":
+		// the application reports the header height of the block it committed
 		if a.pend != nil {
 			a.hash = nextHash(a.hash, a.pend.h, a.pend.txs)
+			a.height = a.pend.h
 		} else {
 			a.hash = nextHash(a.hash, 0, nil)
+			a.height++
 		}
-		a.height++
 		a.hashLog = append(a.hashLog, a.hash)
+		a.hgtLog = append(a.hgtLog, a.height)
 		a.pend = nil
 	}
 }
@@ -171,15 +176,17 @@ func (a *recApp) Rollback(j int) {
 	a.mu.Lock()
 	defer a.mu.Unlock()
 	a.record("R")
-	nh := a.height - int64(j)
+	nh := len(a.hashLog) - j
 	if nh < 0 {
 		nh = 0
 	}
-	a.height = nh
 	a.hashLog = a.hashLog[:nh]
+	a.hgtLog = a.hgtLog[:nh]
 	a.hash = nil
+	a.height = 0
 	if nh > 0 {
 		a.hash = a.hashLog[nh-1]
+		a.height = a.hgtLog[nh-1]
 	}
 }
 
@@ -288,6 +295,11 @@ func (a *recApp) snapshot() (int64, []byte, []string) {
 // journalCheck returns "" if well formed, else a description and the index of the failing call.
 // chain(h) = tx ids of block h.
 func journalCheck(j []string, chain func(h int64) ([]int, bool)) (committed int64, bad string) {
+	return journalCheckIH(j, chain, 1)
+}
+
+// journalCheckIH: the first block has height ih
+func journalCheckIH(j []string, chain func(h int64) ([]int, bool), ih int64) (committed int64, bad string) {
 	var open *pendExec
 	for i, tok := range j {
 		fail := func(why string) (int64, string) {
@@ -315,7 +327,7 @@ func journalCheck(j []string, chain func(h int64) ([]int, bool)) (committed int6
 			if h <= committed {
 				return fail(fmt.Sprintf("block %d executed again after it was committed", h))
 			}
-			if h != committed+1 {
+			if (committed == 0 && h != ih) || (committed != 0 && h != committed+1) {
 				return fail(fmt.Sprintf("height skipped: BeginBlock %d after commit of %d", h, committed))
 			}
 			open = &pendExec{h: h}
